@@ -390,6 +390,33 @@ func cellBases(w *ev.W) ([]base, map[string]reg.Entry) {
 				name := "cell:" + cell.Pkg + "." + cell.Def
 				ents[name] = ent
 				out = append(out, base{name: name, msg: enc, marks: marks, apis: []string{"cellgen:"}})
+				// the same message with the element (key and value) type of one container header
+				// replaced by another fixed-width type: the generated decoders pass over such a
+				// container element by element (gen/list.go, set.go, map.go), so the declared count
+				// drives a loop of Skip calls instead of an allocation
+				for _, m := range marks {
+					other := func(b byte) byte {
+						if b == byte(tbin.I64) {
+							return byte(tbin.Double)
+						}
+						return byte(tbin.I64)
+					}
+					var rt []byte
+					switch {
+					case strings.HasPrefix(m.Kind, "list-count"), strings.HasPrefix(m.Kind, "set-count"):
+						rt = append([]byte{}, enc...)
+						rt[m.Off-1] = other(rt[m.Off-1])
+					case strings.HasPrefix(m.Kind, "map-count"):
+						rt = append([]byte{}, enc...)
+						rt[m.Off-2], rt[m.Off-1] = other(rt[m.Off-2]), byte(tbin.Bool)
+					}
+					if rt == nil || seen[string(rt)] {
+						continue
+					}
+					seen[string(rt)] = true
+					// only this header's count is a meaningful position of the retyped message
+					out = append(out, base{name: name, msg: rt, marks: []tbin.Mark{{Off: m.Off, Kind: "retyped-" + m.Kind}}, apis: []string{"cellgen:", "retyped"}})
+				}
 			}
 		}
 	}
@@ -416,6 +443,12 @@ func run(w *ev.W) {
 				cellutil.DecodeStream(ent.Type, cr)
 				return cr.Reads
 			}},
+			// the streaming decoder over a reader that can seek (Skip becomes Seek)
+			{"gen:" + b.name + ".Decode[seekable]", func(msg []byte) int {
+				cr := &chunk.Reader{B: msg}
+				cellutil.DecodeStream(ent.Type, chunk.Seekable{Reader: cr})
+				return cr.Reads
+			}},
 		}
 	}
 	bs := append(bases(!w.Quick()), cb...)
@@ -429,7 +462,11 @@ func run(w *ev.W) {
 		if w.Shard == 0 {
 			w.Count("base_messages", 1)
 		}
+		retyped := len(b.apis) == 2 && b.apis[1] == "retyped"
 		for off := 0; off+4 <= len(b.msg); off++ {
+			if retyped && off != b.marks[0].Off {
+				continue
+			}
 			kind, real := posKind(b.marks, off)
 			mags := magnitudes
 			if !strings.HasPrefix(b.name, "cell:") {
@@ -454,6 +491,9 @@ func run(w *ev.W) {
 					// message (a window that overlaps a length field shifts bytes into it)
 					if v, k := tbin.LargestDeclared(tbin.Struct, msg); v >= 1<<16 && k != "" {
 						kind = k
+						if retyped {
+							kind = "retyped-" + k
+						}
 					}
 				}
 				w.Eval(1)
@@ -485,6 +525,11 @@ func run(w *ev.W) {
 func apiClass(name string) string {
 	if strings.HasPrefix(name, "gen:") {
 		if strings.HasSuffix(name, ".Decode") {
+			return "generated.Decode(stream)"
+		}
+		if strings.HasSuffix(name, ".Decode[seekable]") {
+			// (one class with the plain stream: what a generated decoder allocates or
+			// loops over does not depend on the reader; the detail names the reader)
 			return "generated.Decode(stream)"
 		}
 		return "generated.FromWire(Decode)"
